@@ -10,11 +10,15 @@ rows = ["| property | commit in /repo | id | what failed |", "|---|---|---|---|"
 for f in kf:
     rows.append("| %s | %s | %s | %s |" % (f["property"], f.get("commit") or "recorded, not repaired", f["id"], f["what"].replace("|", "/").replace("\n", " ")))
 seeds = ["| seed | change | needs, to manifest | detected by | first version of the check |", "|---|---|---|---|---|"]
-n = missed = 0
+n = missed = undet = 0
 for m in sorted(glob.glob(os.path.join(V, "seeded/*/meta.json"))):
     x = json.load(open(m)); n += 1
     miss = x.get("missed_by_first_version_of_check")
     missed += 1 if miss else 0
+    if x.get("detected") is False:
+        undet += 1
+        seeds.append("| %s | %s | %s | **not detected** | %s |" % (x["seed"], x["change"].replace("|", "/"), x.get("needs_to_manifest", "").replace("|", "/"), "open: " + x.get("why_missed", "").replace("|", "/")))
+        continue
     seeds.append("| %s | %s | %s | %s | %s |" % (x["seed"], x["change"].replace("|", "/"), x.get("needs_to_manifest", "").replace("|", "/"), x.get("detected_by", "").replace("|", "/"),
                  ("missed at first; " + x.get("strengthened", "check extended")) if miss else "caught by the first version"))
 def put(tag, body):
@@ -22,7 +26,7 @@ def put(tag, body):
     s = re.sub(r"(<!-- BEGIN %s -->\n).*?(<!-- END %s -->)" % (tag, tag), lambda m: m.group(1) + body + "\n" + m.group(2), s, flags=re.S)
 put("DEFECTS", "\n".join(rows))
 put("SEEDS", "\n".join(seeds))
-put("COUNTS", "%d seeded changes (%d missed by the first version of the respective check, all detected now); %d confirmed defects (%d repaired, %d recorded)." % (
-    n, missed, len(kf), sum(1 for f in kf if f["status"] == "fixed"), sum(1 for f in kf if f["status"] != "fixed")))
+put("COUNTS", "%d seeded changes (%d missed by the first version of the respective check; %d still not detected, the rest detected now); %d confirmed defects (%d repaired, %d recorded)." % (
+    n, missed, undet, len(kf), sum(1 for f in kf if f["status"] == "fixed"), sum(1 for f in kf if f["status"] != "fixed")))
 open(p, "w").write(s)
 print("DESIGN tables: %d defects, %d seeds" % (len(kf), n))
